@@ -87,11 +87,16 @@ def run(ctx):
     for cls, ty, toks in wg.big_cases(rb, thorough):
         for bo in ("le", "be"):
             vals.append((ty, wg.parse_ext(ty), bo, rb.randrange(16), 0, toks, cls))
-    se_lines = ["SE %s %d %s" % (bo, off, " ".join(toks)) for (_, _, bo, off, _, toks, _) in vals]
+    # (a value of megabytes is encoded by the plain encoder wiregen.Layout instead: the extracted specification needs gigabytes for it)
+    huge = set(i for i, v in enumerate(vals) if v[6] and not wg.model_cheap("SE", v[2], v[5]))
+    se_lines = ["SE %s %d %s" % (bo, off, " ".join(toks)) if i not in huge else "SE le 0 y 0" for i, (_, _, bo, off, _, toks, _) in enumerate(vals)]
     ok, spec_out, err = vlib.par_run_lines(drv, [], se_lines[:nsmall])
     if ok:
         ok, so2, err = wg.run_each(drv, se_lines[nsmall:], chunk=2)
         spec_out = spec_out + so2
+        for i in huge:
+            spec_out[i] = "spec=%s encodable=true" % wg.layout(vals[i][2] == "be", vals[i][3], vals[i][5])[0].hex()
+            ctx.count("big:encoded-by-python-layout")
     if not ok:
         ctx.tie_broken("extracted specification crashed", err)
         return
@@ -113,6 +118,8 @@ def run(ctx):
             big_tokens[len(cases) - 1] = toks
             # the FIRST length field of a big encoding (the big one): off by a little, and beyond the limit
             order = "big" if bo == "be" else "little"
+            if sum(len(x) for x in toks) > 4000000:
+                continue                     # megabytes: the valid encoding only
             try:
                 lb, marks = wg.layout(bo == "be", off, toks)
             except Exception:
@@ -131,14 +138,14 @@ def run(ctx):
         suffix = bytes([r.randrange(256) for _ in range(r.choice([0, 1, 3, 8]))])
         if suffix:
             cases.append(("valid+suffix", ty, t, bo, off, nf, pre + enc + suffix, " ".join(toks), len(enc), False))
-        for kind, cb in wg.aimed_corruptions(r, bo == "be", off, toks, enc, extra=8 if thorough else 4, all_padding=thorough):
+        for kind, cb in wg.aimed_corruptions(r, bo == "be", off, toks, enc, extra=8 if thorough else 4, all_padding=thorough, nfds=nf):
             if kind == "layout-differs":
                 ctx.count("layout-differs (corruptions of this value are not aimed)")
                 continue
             cases.append(("corrupt:" + kind, ty, t, bo, off, nf, pre + cb, None, None, False))
     for line in wg.corpus_lines("C03"):
         f = line.split(" ")
-        if f[0] != "BODY":
+        if not f[0].startswith("BODY"):
             cases.append(("corpus", f[3], wg.parse_ext(f[3]), f[0], int(f[1]), int(f[2]), bytes.fromhex(f[4]) if f[4] != "-" else b"", None, None, False))
     for _ in range(4000 if thorough else 400):
         ty = r.choice(cat)
@@ -370,7 +377,7 @@ def run(ctx):
                 "corruption_classes. Stream 3: random bytes. Stream 4 (big): length fields >= 64 KiB, strings of 255..70000 bytes, 64..100 containers in "
                 "one array/dict, nesting at the limits, valid and with the big length field off by 1 / 8 / beyond 2^26. Stream 5 (glue, %d bodies): "
                 "validate(), unmarshall_all, unmarshal_body on bodies from from_parts: valid, with trailing bytes, truncated, corrupted, signature with "
-                "one type more or less. non-trivial = the type has a container or a text leaf, or the input is a corruption; distinct = distinct case lines"
+                "one type more or less, each at buf_offset 0 / 8 / 16 / 112 / 4096 (and 3 / 4: normalised). non-trivial = the type has a container or a text leaf, or the input is a corruption; distinct = distinct case lines"
                 % (per_type, ncat, len(classes), nglue))
 
 
@@ -420,17 +427,23 @@ def glue(ctx, exe, drv, thorough):
             cases.append(("signature-1", bo, "".join(wg.erased(wg.parse_ext(ty)) for ty in tys[:-1]), buf, None))
     for line in wg.corpus_lines("C03"):
         f = line.split(" ")
-        if f[0] == "BODY":
-            cases.append(("corpus", f[1], bytes.fromhex(f[2]).decode() if f[2] != "-" else "", bytes.fromhex(f[3]) if f[3] != "-" else b"", None))
+        if f[0].startswith("BODY"):
+            cases.append(("corpus" + f[0][4:], f[1], bytes.fromhex(f[2]).decode() if f[2] != "-" else "", bytes.fromhex(f[3]) if f[3] != "-" else b"", None))
     cases.append(("empty", "le", "", b"", True))
     cases.append(("empty", "be", "", b"", True))
     cases.append(("trailing", "le", "", b"\x07\x07", None))
     lines = []
+    places = ["", "", "@8", "@16", "@112", "@4096", "@3", "@4"]
     for kind, bo, sig, buf, known in cases:
         sh, bh = sig.encode().hex() or "-", buf.hex() or "-"
-        lines.append("BV %s 0 %s %s" % (bo, sh, bh))
-        lines.append("BA %s 0 %s %s" % (bo, sh, bh))
-        lines.append("BB %s 0 0 %s %s" % (bo, sh, bh))
+        # where the body lives: from_parts behind n foreign bytes (buf_offset n; 3 and 4 are normalised to 0); the model has no offsets
+        place = r.choice(places)
+        if kind.startswith("corpus@"):
+            kind, place = "corpus", kind[6:]
+        ctx.count("glue-body-at:" + (place[1:] or "0"))
+        lines.append("BV%s %s 0 %s %s" % (place, bo, sh, bh))
+        lines.append("BA%s %s 0 %s %s" % (place, bo, sh, bh))
+        lines.append("BB%s %s 0 0 %s %s" % (r.choice(["", "@8", "@16", "@112"]), bo, sh, bh))
         # the single-value decoders on the same input (an empty signature has no types: nothing to run)
         lines.append("VR %s 0 %s %s" % (bo, sig, bh) if sig else "CAT")
         lines.append("UP %s 0 0 %s %s" % (bo, sig, bh) if sig else "CAT")
